@@ -11,6 +11,7 @@ import (
 	"regexp"
 	"sort"
 	"strings"
+	"time"
 
 	"verif/internal/kit"
 )
@@ -332,6 +333,65 @@ func main() {
 				}
 			}
 			rep.Class("hidden-file-replaced")
+		}
+		// an archive download whose client goes away after a few bytes, then archives of other directories: each holds the files of its
+		// directory and nothing of the download before it
+		if strings.Contains(v.body, "servearchive") {
+			// (for the duration of this phase the root holds a file large enough that the archive does not fit one read of the copy loop)
+			big := make([]byte, 300<<10)
+			x := uint32(12345)
+			for i := range big {
+				x = x*1664525 + 1013904223
+				big[i] = byte(x >> 24)
+			}
+			os.MkdirAll(filepath.Join(root, "dirbig"), 0o755)
+			os.WriteFile(filepath.Join(root, "dirbig", "big.bin"), big, 0o644)
+			for _, failAfter := range []int{1, 10, 40, 5000, 100000} {
+				req, err := kit.Req(kit.Get("GET", v.prefix+"/?archive=zip", "a.test:8080"))
+				if err == nil {
+					rec := kit.NewRec("GET")
+					rec.FailAfter = failAfter
+					rec.FailDelay = 30 * time.Millisecond
+					kit.ServeReqRec(srv, req, rec)
+					rep.Eval(1)
+					if os.Getenv("C02_DUMP") != "" { // (debugging aid)
+						fmt.Printf("ABORTED variant=%s failAfter=%d status=%d body=%d\n", v.name, failAfter, rec.Status, rec.Body.Len())
+					}
+				}
+				for _, d := range []string{"/dir/", "/dir2/", "/dir/"} { // (directories without an index page)
+					raw := kit.Get("GET", v.prefix+d+"?archive=zip", "a.test:8080")
+					req, err := kit.Req(raw)
+					if err != nil {
+						continue
+					}
+					rec, pv, _ := kit.ServeReq(srv, req)
+					rep.Eval(1)
+					members, ok := kit.Unarchive(rec.Body.Bytes())
+					if os.Getenv("C02_DUMP") != "" {
+						fmt.Printf("  NEXT %s status=%d body=%d archive=%v members=%d\n", d, rec.Status, rec.Body.Len(), ok, len(members))
+					}
+					problem := ""
+					switch {
+					case pv != nil:
+						problem = fmt.Sprintf("panic: %v", pv)
+					case !ok:
+						problem = "the body is not an archive"
+					default:
+						for name, c := range members {
+							for f, tok := range tokens {
+								if strings.Contains(c, tok) && !strings.HasPrefix("/"+f, d) {
+									problem = fmt.Sprintf("member %s holds content of %s", name, f)
+								}
+							}
+						}
+					}
+					if problem != "" {
+						rep.Violation("C02/archive-after-an-aborted-download", fmt.Sprintf("after an archive download of / that the client abandoned after %d bytes, the archive of %s: %s", failAfter, d, problem), c02case{Casketfile: cf, Request: raw, Status: rec.Status})
+					}
+				}
+			}
+			os.RemoveAll(filepath.Join(root, "dirbig"))
+			rep.Class("archive-after-an-aborted-download")
 		}
 		// the hidden file has a second name inside the root (a hard link): it is the same file, and stays hidden under that name too
 		alias := filepath.Join(root, "dir2", "second-name.txt")
